@@ -218,6 +218,21 @@ pub fn run_syscall_case(cx: &CaseCtx, rep: &mut Report, format: &str, real_binar
 		}
 		old = std::fs::read(&out).unwrap_or_default();
 		rep.count("syscall_traces_over_a_preexisting_container", 1);
+		if !real_binary {
+			// crash point 0 of the real file writer: the writer object exists, no operation has been issued yet
+			let probe = dir.join(format!("probe.{format}"));
+			if std::fs::write(&probe, &old).is_ok() {
+				let made = guard::catch(|| versatiles_core::io::DataWriterFile::from_path(&probe).map(drop));
+				if matches!(made, Ok(Ok(()))) {
+					let img = std::fs::read(&probe).unwrap_or_default();
+					rep.eval();
+					rep.count("file_writer_created_without_any_operation", 1);
+					if let Outcome::OpenedWrong(e) = try_image(format, &img, &ts) {
+						rep.violation(&format!("{format}|file-writer|opens-but-wrong|before-first-operation"), "after the file writer has been created over an existing container (no operation issued yet) the path still opens as a valid container of other content", json!({"format": format, "bytes_on_disk": img.len(), "what": e}));
+					}
+				}
+			}
+		}
 	}
 	let mut cmd = std::process::Command::new("strace");
 	cmd.arg("-f").arg("-o").arg(&trace).arg("-e").arg("trace=open,openat,close,dup,dup2,dup3,fcntl,write,pwrite64,lseek,ftruncate,rename,renameat,renameat2,sendfile,copy_file_range").arg("-xx").arg("-s").arg("67108864");
